@@ -175,6 +175,14 @@ def _port(unit, ctx):
                 kw = dict(platform=plat, version=ver, protocol=pname, port_nr=cfg["port_nr"])
                 _generic("Port", f"eq {name}", kw, True, ctx)
                 _generic("Port", f"range {name} 65535", kw, True, ctx)
+                if plat == "ios":  # one port spelled twice in one list (number + name, twice the name)
+                    from vf.refsem import golden
+
+                    nr = golden.PORTS[pname].get(name)
+                    if nr:
+                        _generic("Port", f"eq {nr} {name}", kw, True, ctx)
+                        _generic("Port", f"neq {name} {nr} {name}", kw, True, ctx)
+                        _generic("Port", f"eq {name} 1 0{nr}", kw, True, ctx)
     ctx.sample("port", "eq www 443")
 
 
